@@ -57,18 +57,29 @@ def model_value(v):
 def discharge(ob, axioms=(), nat_consts=(), timeout_ms=10000, use_cvc5=True, long_retry=None) -> Verdict:
     if long_retry is None:
         long_retry = timeout_ms >= 20000
-    s = z3.Solver()
-    s.set("timeout", timeout_ms)
-    for a in axioms:
-        s.add(a)
-    for c in nat_consts:
-        s.add(c >= 0)
-    for h in ob.hyps:
-        s.add(h)
-    s.add(z3.Not(ob.goal))
-    t0 = time.time()
-    r = s.check()
-    dt = time.time() - t0
+    # E-matching over the imported lemmas occasionally diverges on one instantiation order and finishes in milliseconds on
+    # another: three attempts with different solver seeds (short, short, full budget) before the other back ends
+    dt = 0.0
+    for attempt, (seed, budget) in enumerate(((0, max(1000, timeout_ms // 3)), (11, max(1000, timeout_ms // 3)), (23, timeout_ms))):
+        s = z3.Solver()
+        s.set("timeout", budget)
+        if attempt:
+            s.set("random_seed", seed)
+            s.set("smt.random_seed", seed)
+        if any(z3.is_quantifier(a) for a in axioms):
+            s.set("smt.mbqi", False)         # imported lemmas are instantiated by E-matching on their triggers only
+        for a in (axioms if attempt != 1 else list(reversed(list(axioms)))):
+            s.add(a)
+        for c in nat_consts:
+            s.add(c >= 0)
+        for h in ob.hyps:
+            s.add(h)
+        s.add(z3.Not(ob.goal))
+        t0 = time.time()
+        r = s.check()
+        dt += time.time() - t0
+        if r != z3.unknown:
+            break
     if r == z3.unsat:
         return Verdict(ob.name, "discharged", "z3", dt, where=ob.where, note=ob.note, kind=ob.kind)
     if r == z3.sat:
